@@ -257,6 +257,30 @@ class Iter:
         return "Iter(%d/%d)" % (self.pos, len(self.vec.items))
 
 
+ARCH = "vt::Arch"
+# pure integer -> scalar helpers (callers pass template constants and loop counters bounded by them, never window
+# indices): exact integer arithmetic inside them is constant propagation, not index arithmetic
+INT_HELPERS = ("bspline::internal::faculty<", "bspline::internal::facultyRatio<",
+               "bspline::internal::binomialCoefficient<")
+
+
+class RawBytes:
+    """A pointer into scalar storage reinterpreted as bytes (argument of memcmp & co.)."""
+    __slots__ = ("it", "elsize")
+
+    def __init__(self, it, elsize):
+        self.it, self.elsize = it, elsize
+
+    def copy(self):
+        return self
+
+    def __repr__(self):
+        return "RawBytes(%r, %d)" % (self.it, self.elsize)
+
+
+_SIZEOF = {"double": 8, "float": 4, "long double": 16}
+
+
 class Obj:
     def __init__(self, cls, rec):
         self.cls, self.rec, self.fields = cls, rec, {}
@@ -448,6 +472,8 @@ class Interp:
         self.executed = set()   # pattern locations of every function evaluated abstractly
         self.scaled = set()     # functions scaling a tracked integer by a constant (outside the order-type fragment)
         self.divzero = []       # divisions by a value known to be exactly zero (defined for IEEE types only)
+        self.rawcmp = []        # scalar storage compared byte-wise instead of through T's operator==
+        self.bigconv = []       # integers beyond INT_MAX converted to the scalar type (T is constructible from int)
 
     # -- lookup -----------------------------------------------------------------------
     def func(self, decl_id):
@@ -621,6 +647,10 @@ class Interp:
                     self.call(f, dst.fields[k], [LV(src.fields, k)])
                 else:
                     self.assign_memberwise(dst.fields[k], v, move and op is not None and bool(op.get("moveassign")))
+            elif move and dst.fields[k] is v and isinstance(v, Vec) and not isinstance(v, Arr):
+                # v = std::move(v): valid but unspecified by the standard; libstdc++ (the implementation this build
+                # uses) swaps the content into a temporary, i.e. the vector ends up empty
+                v.items = []
             else:
                 dst.fields[k] = self.copy_or_move(v, src.fields, k, move)
 
@@ -1080,6 +1110,7 @@ class Interp:
         if ck == "IntegralToFloating":
             v = self.rv(c)
             if self.is_scalar_type(self.T(e)):
+                self._int_to_scalar(v, e)
                 return Sc(v)
             raise OutOfFragment("int->float conversion to %s" % self.T(e))
         if ck == "NullToPointer":
@@ -1088,6 +1119,10 @@ class Interp:
             v = self.rv(c)
             if isinstance(v, Pointer) or v is NULLPTR:
                 return v   # pointer converted to const void* for an address comparison
+            if isinstance(v, Iter) and not v.rev:
+                el = self.T(c).replace("const ", "").replace("*", "").strip()
+                if el in _SIZEOF:
+                    return RawBytes(v, _SIZEOF[el])   # T* -> const void*: storage handed to a byte-wise routine
             raise OutOfFragment("bit cast of %r" % (v,))
         if ck == "PointerToBoolean":
             v = self.rv(c)
@@ -1221,6 +1256,12 @@ class Interp:
             if isinstance(x, Pointer) and isinstance(y, Pointer) and op in ("==", "!="):
                 same = x.lv.c is y.lv.c and x.lv.k == y.lv.k
                 return 1 if (same == (op == "==")) else 0
+            if op in ("==", "!=") and ((isinstance(x, Pointer) and isinstance(y, Obj)) or
+                                       (isinstance(x, Obj) and isinstance(y, Pointer))):
+                # `this == &other` (CXXThisExpr evaluates to the object itself)
+                ptr, ob = (x, y) if isinstance(x, Pointer) else (y, x)
+                same = val(ptr.lv) is ob
+                return 1 if (same == (op == "==")) else 0
             raise OutOfFragment("comparison %s of %r and %r" % (op, x, y))
         if op in ("+", "-", "*", "/") and isinstance(x, Sc) and isinstance(y, Sc):
             if op == "/" and y.v == 0:
@@ -1266,7 +1307,7 @@ class Interp:
         the pure helper functions named in int_arith_scopes, whose callers pass template constants."""
         if getattr(self, "allow_int_arith", False):
             return True
-        sc = getattr(self, "int_arith_scopes", ())
+        sc = getattr(self, "int_arith_scopes", ()) + INT_HELPERS
         if sc and self.frames:
             return self.frames[-1]["__fn__"].qn.startswith(sc)
         return False
@@ -1310,6 +1351,17 @@ class Interp:
             raise OutOfFragment("unresolved constructor")
         rq = d.get("recqn", "")
         args = [self.ev(c) for c in kids(e)]
+        if rq == ARCH:
+            # the scalar archetype is a scalar: value-initialised, copied, or built from an integer
+            vals = [val(a) for a in args if a is not DEFAULTARG]
+            if not vals:
+                return default_scalar()
+            if isinstance(vals[0], Sc):
+                return vals[0]
+            if isinstance(vals[0], int):
+                self._int_to_scalar(vals[0], e)
+                return Sc(vals[0])
+            raise OutOfFragment("vt::Arch constructed from %r" % (vals[0],))
         if d.get("inroot") or rq.startswith("bspline::") or rq.startswith("vt"):
             if rq.startswith("bspline::exceptions::"):
                 return Obj(rq, self.u.decls.get(d["record"]))
@@ -1421,6 +1473,8 @@ class Interp:
             raise OutOfFragment("unresolved call at line %s" % e.get("l"))
         d = ci.decl
         qn = d["qn"]
+        if d.get("recqn") == ARCH or (qn.startswith("vt::operator") and d.get("pfile", "").endswith("/arch.h")):
+            return self._arch_call(ci, d, e)
         f = self.func(d["id"]) if (d.get("inroot") or qn.startswith("bspline::")) else None
         if f is not None and (f.in_repo() or f.decl.get("lambdaop") or f.decl["pfile"].startswith(_DRIVERS)):
             this = None
@@ -1512,6 +1566,34 @@ class Interp:
             return self.truth(self.call(eq, a, [box(b)]))
         raise OutOfFragment("equality of %r and %r" % (a, b))
 
+    def _int_to_scalar(self, v, e):
+        if isinstance(v, int) and abs(v) > 2147483647:
+            fn = self.frames[-1]["__fn__"] if self.frames else None
+            self.bigconv.append((fn.pkey, fn.pqn, fn.qn, e.get("l"), v) if fn is not None else None)
+
+    def _arch_call(self, ci, d, e):
+        """Operators of the scalar archetype vt::Arch act on the abstract scalar domain exactly like the built-in
+        operators of double (drivers/arch.h gives them no meaning of their own)."""
+        name = d["name"]
+        op = name[len("operator"):]
+        args = list(ci.args)
+        if ci.obj is not None:
+            lv = self.ev(ci.obj)
+            if op in ("+=", "-=", "*=", "/="):
+                y = self.rv(args[0])
+                r = self.binop(op[:-1], lv.load() if isinstance(lv, LV) else val(lv), y, e)
+                lv.store(r)
+                return lv
+            if op == "=":
+                lv.store(self.rv(args[0]))
+                return lv
+            if op == "-" and not args:
+                return sc_arith("*", Sc(-1), val(lv))
+            raise OutOfFragment("vt::Arch member %s" % name)
+        if len(args) == 2 and op in ("+", "-", "*", "/", "<", "<=", ">", ">=", "==", "!="):
+            return self.binop(op, self.rv(args[0]), self.rv(args[1]), e)
+        raise OutOfFragment("vt::Arch operation %s" % name)
+
     def std_call(self, ci, e):
         d = ci.decl
         qn = d["qn"]
@@ -1528,6 +1610,31 @@ class Interp:
         # ---- free std functions
         if ci.kind == "free":
             base = qn.split("<")[0]
+            if base in ("std::isnan", "isnan", "std::isfinite", "isfinite") and len(V) == 1 and isinstance(V[0], Sc):
+                # opaque (value-dependent) scalars stand for ordinary finite numbers
+                isn = V[0].v == NAN
+                return (1 if isn else 0) if base.endswith("isnan") else (0 if isn else 1)
+            if base in ("memcmp", "std::memcmp", "bcmp") and len(V) == 3 and isinstance(V[0], RawBytes) and \
+                    isinstance(V[1], RawBytes) and isinstance(V[2], int):
+                a, b, nbytes = V
+                if a.elsize != b.elsize or nbytes % a.elsize:
+                    raise OutOfFragment("memcmp over partial elements")
+                k = nbytes // a.elsize
+                for r in (a, b):
+                    if r.it.pos < 0 or r.it.pos + k > len(r.it.vec.items):
+                        raise ModelUB("memcmp reads %d elements from position %d of a block of %d" % (
+                            k, r.it.pos, len(r.it.vec.items)))
+                fn = self.frames[-1]["__fn__"] if self.frames else None
+                self.rawcmp.append((fn.pkey, fn.pqn, fn.qn, e.get("l")) if fn is not None else None)
+                for i in range(k):
+                    x, y = a.it.vec.items[a.it.pos + i], b.it.vec.items[b.it.pos + i]
+                    if not (isinstance(x, Sc) and isinstance(y, Sc)):
+                        raise OutOfFragment("memcmp over non-scalar storage")
+                    if x.v is None or y.v is None or x.v is NAN or y.v is NAN or x.v != y.v:
+                        if x.v is None or y.v is None:
+                            raise OutOfFragment("memcmp of value-dependent scalars")
+                        return 1
+                return 0
             if base in ("std::move", "std::forward", "std::as_const", "std::addressof"):
                 return A[0]
             if base in ("std::swap", "std::iter_swap") and len(A) == 2:
